@@ -1,3 +1,4 @@
+import FV.OpLen
 import FV.Props.Catalog
 import FV.Ops
 import FV.Props.C12
@@ -229,4 +230,9 @@ example : outOf (applyOp (.setField 0 1 [9, 9]) (.uenum ⟨1, 1, false⟩ [[.pri
     = some (.ok, [0, 0, 5, 0, 9, 9]) := by decide
 example : outOf (applyOp (.setField 0 1 [9, 9]) (.uenum ⟨1, 1, false⟩ [[.prim 1 1, .prim 2 2], []]) ⟨0, [1, 0, 5, 0, 1, 2]⟩)
     = some (.novariant, [1, 0, 5, 0, 1, 2]) := by decide
+/-- **C14 (every vector / string operation).** Whatever `GenericVec` / `GenericString` operation runs on whatever bytes — push, pop,
+push_slice, extend, truncate, clear, remove, swap_remove, resize, an indexed write, push_str — if it returns at all it returns a byte
+list of exactly the length it was given: every write of the model faults outside its list, so nothing beyond the value was touched. -/
+theorem C14_vec_op_keeps_length (g : VecGeo) (bs : Bytes) (len : Nat) (op : Op) (o : OpOut) (h : vecOp g bs len op = .ok o) :
+    o.bytes.length = bs.length := vecOp_length g bs len op o h
 end FV.Props
